@@ -50,6 +50,7 @@ func signOf(x sdkmath.Int) string {
 
 // Check evaluates every invariant of the property in one state.
 func (w *World) Check(ctx sdk.Context, l *Ledger, fail func(a, s, d string)) {
+	fail = classSig(fail)
 	err := core.Try(func() error { w.check(ctx, l, fail); return nil })
 	if err != nil {
 		if strings.Contains(err.Error(), "harness:") {
@@ -77,7 +78,7 @@ func (w *World) check(ctx sdk.Context, l *Ledger, fail func(a, s, d string)) {
 	for _, id := range sortedKeys(want) {
 		if got[id] != want[id] {
 			i := l.find(id)
-			fail("connections.delegated-lock-is-connected", fmt.Sprintf("after=%s", l.LastOp), fmt.Sprintf("lock %d delegated to val%d: connection %q, expected %q", id, l.Locks[i].Val, got[id], want[id]))
+			fail("connections.delegated-lock-is-connected", "delegated", fmt.Sprintf("lock %d delegated to val%d: connection %q, expected %q", id, l.Locks[i].Val, got[id], want[id]))
 		}
 	}
 	for _, id := range sortedKeys(got) {
@@ -86,7 +87,7 @@ func (w *World) check(ctx sdk.Context, l *Ledger, fail func(a, s, d string)) {
 			if i := l.find(id); i >= 0 {
 				st = fmt.Sprintf("sf=%d", l.Locks[i].SF)
 			}
-			fail("connections.only-delegated-locks-are-connected", fmt.Sprintf("after=%s %s", l.LastOp, st), fmt.Sprintf("lock %d (%s) is connected to %s but is not delegated according to the history", id, st, got[id]))
+			fail("connections.only-delegated-locks-are-connected", st, fmt.Sprintf("lock %d (%s) is connected to %s but is not delegated according to the history", id, st, got[id]))
 		}
 	}
 	// intermediary accounts: one per (denom, validator) ever delegated through
@@ -126,18 +127,18 @@ func (w *World) check(ctx sdk.Context, l *Ledger, fail func(a, s, d string)) {
 		switch k.SF {
 		case sfPlain:
 			if len(ss) != 0 {
-				fail("markers.none-on-undelegated-lock", fmt.Sprintf("after=%s", l.LastOp), fmt.Sprintf("lock %d is not superfluid-staked but has synthetic locks %v", k.ID, ss))
+				fail("markers.none-on-undelegated-lock", "plain", fmt.Sprintf("lock %d is not superfluid-staked but has synthetic locks %v", k.ID, ss))
 			}
 		case sfDelegated:
 			if len(ss) != 1 || ss[0].denom != w.ShareDenom+"/superbonding/"+val || !ss[0].end.IsZero() {
-				fail("markers.delegated-lock-has-exactly-one-staking-marker", fmt.Sprintf("after=%s n=%d", l.LastOp, len(ss)), fmt.Sprintf("lock %d delegated to val%d has synthetic locks %v", k.ID, k.Val, ss))
+				fail("markers.delegated-lock-has-exactly-one-staking-marker", fmt.Sprintf("n=%d", len(ss)), fmt.Sprintf("lock %d delegated to val%d has synthetic locks %v", k.ID, k.Val, ss))
 			}
 		case sfUndelegating:
 			wantEnd := k.UndelAt.Add(w.U)
 			if len(ss) != 1 || ss[0].denom != w.ShareDenom+"/superunbonding/"+val {
-				fail("markers.undelegating-lock-has-exactly-one-unstaking-marker", fmt.Sprintf("after=%s n=%d", l.LastOp, len(ss)), fmt.Sprintf("lock %d undelegating from val%d since %s has synthetic locks %v", k.ID, k.Val, k.UndelAt, ss))
+				fail("markers.undelegating-lock-has-exactly-one-unstaking-marker", fmt.Sprintf("n=%d", len(ss)), fmt.Sprintf("lock %d undelegating from val%d since %s has synthetic locks %v", k.ID, k.Val, k.UndelAt, ss))
 			} else if !ss[0].end.Equal(wantEnd) {
-				fail("markers.unstaking-marker-lasts-the-unbonding-period", fmt.Sprintf("after=%s off=%s", l.LastOp, ss[0].end.Sub(wantEnd)), fmt.Sprintf("lock %d undelegated at %s: unstaking marker ends %s, expected %s (unbonding period %s)", k.ID, k.UndelAt, ss[0].end, wantEnd, w.U))
+				fail("markers.unstaking-marker-lasts-the-unbonding-period", fmt.Sprintf("off=%s", ss[0].end.Sub(wantEnd)), fmt.Sprintf("lock %d undelegated at %s: unstaking marker ends %s, expected %s (unbonding period %s)", k.ID, k.UndelAt, ss[0].end, wantEnd, w.U))
 			}
 			if now.Before(wantEnd) {
 				w.Vac["states_with_immature_undelegation"]++
@@ -151,7 +152,7 @@ func (w *World) check(ctx sdk.Context, l *Ledger, fail func(a, s, d string)) {
 		rest[id] = fmt.Sprint(ss)
 	}
 	for _, id := range sortedKeys(rest) {
-		fail("markers.no-marker-without-lock", fmt.Sprintf("after=%s", l.LastOp), fmt.Sprintf("synthetic locks %s on lock %d which the history does not know as live", rest[id], id))
+		fail("markers.no-marker-without-lock", "dangling", fmt.Sprintf("synthetic locks %s on lock %d which the history does not know as live", rest[id], id))
 	}
 
 	// (3) stake of each intermediary account vs the risk-adjusted value of the connected locks
@@ -192,7 +193,7 @@ func (w *World) check(ctx sdk.Context, l *Ledger, fail func(a, s, d string)) {
 		// half-even roundings, while the expectation is the value of the SUM: each step can move the
 		// difference by at most 2 units. Anything beyond that budget is not rounding.
 		if budget := int64(2 * l.StakeOps[v]); absInt(diff).GT(sdkmath.NewInt(budget)) {
-			fail("stake.difference-is-rounding-only-between-epochs", fmt.Sprintf("locks=%d stake %s value after=%s", n, signOf(diff), l.LastOp),
+			fail("stake.difference-is-rounding-only-between-epochs", fmt.Sprintf("locks=%d stake %s value", n, signOf(diff)),
 				fmt.Sprintf("val%d: intermediary account stakes %s, risk-adjusted value of its %d connected locks (sum %s shares, multiplier %s e-18) is %s; difference %s exceeds the rounding budget %d of %d stake-changing steps since the last epoch refresh", v, d, n, sum, l.Mult, exp, diff, budget, l.StakeOps[v]))
 		}
 	}
@@ -208,7 +209,7 @@ func (w *World) check(ctx sdk.Context, l *Ledger, fail func(a, s, d string)) {
 	// (4) reported OSMO supply is untouched by superfluid minting and burning
 	sup := a.BankKeeper.GetSupplyWithOffset(ctx, w.BondDenom).Amount
 	if expS := l.Supply0.Add(l.Minted); !sup.Equal(expS) {
-		fail("supply.reported-supply-is-neutral", fmt.Sprintf("after=%s reported %s expected", l.LastOp, signOf(sup.Sub(expS))),
+		fail("supply.reported-supply-is-neutral", fmt.Sprintf("reported %s expected", signOf(sup.Sub(expS))),
 			fmt.Sprintf("supply with offset %s, expected genesis %s + mint provisions %s = %s (difference %s)", sup, l.Supply0, l.Minted, expS, sup.Sub(expS)))
 	}
 
@@ -229,7 +230,7 @@ func (w *World) check(ctx sdk.Context, l *Ledger, fail func(a, s, d string)) {
 			end = k.End
 		}
 		if lk.Owner != core.Acc(k.Owner).String() || len(lk.Coins) != 1 || lk.Coins[0].Denom != w.ShareDenom || !lk.Coins[0].Amount.Equal(k.Amt) || lk.Duration != k.Dur || !lk.EndTime.Equal(end) {
-			fail("locks.record-matches-history", fmt.Sprintf("after=%s", l.LastOp), fmt.Sprintf("lock %d is %s owner=%s duration=%s end=%s; history says amount %s owner %s duration %s end %s", k.ID, lk.Coins, lk.Owner, lk.Duration, lk.EndTime, k.Amt, k.Owner, k.Dur, end))
+			fail("locks.record-matches-history", "record", fmt.Sprintf("lock %d is %s owner=%s duration=%s end=%s; history says amount %s owner %s duration %s end %s", k.ID, lk.Coins, lk.Owner, lk.Duration, lk.EndTime, k.Amt, k.Owner, k.Dur, end))
 		}
 		locked[k.Owner] = locked[k.Owner].Add(k.Amt)
 		if k.SF != sfPlain && k.Unlocking && lk.EndTime.Before(k.UndelAt.Add(w.U)) {
@@ -243,7 +244,7 @@ func (w *World) check(ctx sdk.Context, l *Ledger, fail func(a, s, d string)) {
 	for _, o := range owners {
 		bal := a.BankKeeper.GetBalance(ctx, core.Acc(o), w.ShareDenom).Amount
 		if !bal.Add(locked[o]).Equal(w.Funds[o]) {
-			fail("withdraw.owner-shares-liquid-plus-locked-constant", fmt.Sprintf("after=%s", l.LastOp), fmt.Sprintf("owner %s: liquid %s + locked %s != %s", o, bal, locked[o], w.Funds[o]))
+			fail("withdraw.owner-shares-liquid-plus-locked-constant", "owner "+o, fmt.Sprintf("owner %s: liquid %s + locked %s != %s", o, bal, locked[o], w.Funds[o]))
 		}
 	}
 	if mb := a.BankKeeper.GetBalance(ctx, a.AccountKeeper.GetModuleAddress("lockup"), w.ShareDenom).Amount; !mb.Equal(locked["A"].Add(locked["B"])) {
@@ -265,4 +266,15 @@ func describe(l *Ledger) string {
 		b.WriteString("]")
 	}
 	return fmt.Sprintf("h=%d t=%s epoch=%d mult=%s minted=%s refreshed=%v%s", l.Height, l.Now.Format("15:04:05"), l.EpNum, l.Mult, l.Minted, l.JustRefreshed, b.String())
+}
+
+// classSig gives every violation a class signature: the explorer's default (seed + op list) would make
+// every failing path a distinct finding and let one root cause fill the per-shard violation list.
+func classSig(fail func(a, s, d string)) func(a, s, d string) {
+	return func(a, s, d string) {
+		if s == "" {
+			s = "any"
+		}
+		fail(a, s, d)
+	}
 }
